@@ -27,6 +27,7 @@ pub fn dispatch(ctx: &Ctx, rest: &[String]) -> i32 {
         "C12-child" => c12::child(ctx, rest),
         "C13" => c13::run(ctx),
         "C14" => c14::run(ctx),
+        "C15" => c15::run(ctx),
         "C16" => c16::run(ctx),
         "C06-child" => c06::child(ctx, rest),
         other => {
@@ -189,6 +190,7 @@ pub mod c11;
 pub mod c12;
 pub mod c13;
 pub mod c14;
+pub mod c15;
 pub mod c16;
 pub mod hist;
 pub mod histcheck;
